@@ -34,7 +34,10 @@ impl<T> ResourceStorage<T> {
 	#[must_use]
 	pub fn new(capacity: usize) -> (Self, ResourceController<T>) {
 		let (new_resource_producer, new_resource_consumer) = RingBuffer::new(capacity);
-		let (unused_resource_producer, unused_resource_consumer) = RingBuffer::new(capacity);
+		// one more slot than the arena: a resource removed by the audio thread while the
+		// gameplay thread is creating one (slot already freed, unused ring already drained)
+		// is pushed on top of up to `capacity` later removals before the next drain
+		let (unused_resource_producer, unused_resource_consumer) = RingBuffer::new(capacity + 1);
 		let resources = Arena::new(capacity);
 		let arena_controller = resources.controller();
 		(
@@ -115,7 +118,10 @@ impl<T> SelfReferentialResourceStorage<T> {
 		T: Default,
 	{
 		let (new_resource_producer, new_resource_consumer) = RingBuffer::new(capacity);
-		let (unused_resource_producer, unused_resource_consumer) = RingBuffer::new(capacity);
+		// one more slot than the arena: a resource removed by the audio thread while the
+		// gameplay thread is creating one (slot already freed, unused ring already drained)
+		// is pushed on top of up to `capacity` later removals before the next drain
+		let (unused_resource_producer, unused_resource_consumer) = RingBuffer::new(capacity + 1);
 		let resources = Arena::new(capacity);
 		let arena_controller = resources.controller();
 		(
